@@ -320,9 +320,39 @@ def run_harness(exe, ops_text, timeout=600, env=None):
     return rc, out.splitlines(), err, secs
 
 
-def run_model(ops_text, timeout=1200):
-    rc, out, err, secs = run([pcdrv_path()], input=ops_text, timeout=timeout)
-    return rc, out.splitlines(), err, secs
+def run_model(ops_text, timeout=1200, jobs=None):
+    """Run pcdrv on the op lines. Ops are stateless, so large streams are cut into contiguous
+    blocks that run in parallel pcdrv processes; outputs are concatenated in order."""
+    lines = ops_text.splitlines()
+    jobs = jobs or min(12, NCPU)
+    if len(lines) < 64 or jobs <= 1:
+        rc, out, err, secs = run([pcdrv_path()], input=ops_text, timeout=timeout)
+        return rc, out.splitlines(), err, secs
+    t0 = time.time()
+    nblk = min(len(lines) // 16, jobs * 6)
+    # interleaved assignment (line i -> block i % nblk) balances cost when ops are sorted by size
+    blocks = [lines[i::nblk] for i in range(nblk)]
+    import concurrent.futures as cf
+    def work(b):
+        return run([pcdrv_path()], input="\n".join(b) + "\n", timeout=timeout)
+    with cf.ThreadPoolExecutor(max_workers=jobs) as ex:
+        results = list(ex.map(work, blocks))
+    out = [None] * len(lines)
+    rc_all, err_all = 0, ""
+    for bi, (rc, o, e, _) in enumerate(results):
+        ol = o.splitlines()
+        if rc != 0 or len(ol) != len(blocks[bi]):
+            rc_all = rc or 1
+            err_all += e[-500:]
+        for j, v in enumerate(ol[:len(blocks[bi])]):
+            out[bi + j * nblk] = v
+    if rc_all != 0:
+        # return the longest fully answered prefix so that the caller can locate the failing op
+        k = 0
+        while k < len(out) and out[k] is not None:
+            k += 1
+        return rc_all, out[:k], err_all, time.time() - t0
+    return 0, out, err_all, time.time() - t0
 
 
 # --------------------------------------------------------------------------- findings / evidence
